@@ -347,6 +347,9 @@ def run(run):
             from rules import c09 as _c09
             run.guard('plan exists', _c09.plan_exists, run, F, E)
             run.relabel('C09.b', 'C08.g')
+            # a report from an earlier cycle must not feed the plan step of a later one (it could fail or fire a plan that did nothing)
+            run.guard('cycle status reset', _c09.cycle_status_reset, run, F, E)
+            run.relabel('C09.e', 'C08.i')
             run.guard('status rules', status_rules, run, F, E)
             run.guard('exit clears', exit_clears, run, F, E)
             run.guard('sibling rule', sibling_rule, run, F, E)
